@@ -1,0 +1,129 @@
+// Copyright © 2022-2026 Obol Labs Inc. Licensed under the terms of a Business Source License 1.1
+
+//go:build verif
+
+package dutydb
+
+import (
+	eth2api "github.com/attestantio/go-eth2-client/api"
+	"github.com/attestantio/go-eth2-client/spec/altair"
+	eth2p0 "github.com/attestantio/go-eth2-client/spec/phase0"
+
+	"github.com/obolnetwork/charon/core"
+)
+
+// Read-only snapshot of the MemDB internals for the verification harness (/verif, property C06).
+// Add-only; no behaviour. Values are the stored pointers/structs themselves: callers must not mutate them.
+
+// VerifAttKey mirrors attKey.
+type VerifAttKey struct{ Slot, CommIdx uint64 }
+
+// VerifPkKey mirrors pkKey.
+type VerifPkKey struct{ Slot, CommIdx, ValIdx uint64 }
+
+// VerifAggKey mirrors aggKey.
+type VerifAggKey struct {
+	Slot    uint64
+	Root    eth2p0.Root
+	CommIdx uint64
+}
+
+// VerifContribKey mirrors contribKey.
+type VerifContribKey struct {
+	Slot, SubcommIdx uint64
+	Root             eth2p0.Root
+}
+
+// VerifQuery is a pending query: its key (one of the key types above, or uint64 for proposals)
+// and whether its cancel channel is closed.
+type VerifQuery struct {
+	Key       any
+	Cancelled bool
+}
+
+// VerifSnap is a copy of the maps, the per-slot key indices and the pending query slices.
+type VerifSnap struct {
+	Att           map[VerifAttKey]*eth2p0.AttestationData
+	PubKeys       map[VerifPkKey]core.PubKey
+	AttKeysBySlot map[uint64][]VerifPkKey
+	Pro           map[uint64]*eth2api.VersionedProposal
+	Agg           map[VerifAggKey]core.VersionedAggregatedAttestation
+	AggKeysBySlot map[uint64][]VerifAggKey
+	Contrib       map[VerifContribKey]*altair.SyncCommitteeContribution
+	ConKeysBySlot map[uint64][]VerifContribKey
+
+	AttQueries, ProQueries, AggQueries, ContribQueries []VerifQuery
+}
+
+// VerifSnapshot returns a snapshot taken under the store's mutex.
+func (db *MemDB) VerifSnapshot() VerifSnap {
+	db.mu.Lock()
+	defer db.mu.Unlock()
+
+	s := VerifSnap{
+		Att:           make(map[VerifAttKey]*eth2p0.AttestationData),
+		PubKeys:       make(map[VerifPkKey]core.PubKey),
+		AttKeysBySlot: make(map[uint64][]VerifPkKey),
+		Pro:           make(map[uint64]*eth2api.VersionedProposal),
+		Agg:           make(map[VerifAggKey]core.VersionedAggregatedAttestation),
+		AggKeysBySlot: make(map[uint64][]VerifAggKey),
+		Contrib:       make(map[VerifContribKey]*altair.SyncCommitteeContribution),
+		ConKeysBySlot: make(map[uint64][]VerifContribKey),
+	}
+
+	for k, v := range db.attDuties {
+		s.Att[VerifAttKey{k.Slot, k.CommIdx}] = v
+	}
+
+	for k, v := range db.attPubKeys {
+		s.PubKeys[VerifPkKey{k.Slot, k.CommIdx, k.ValIdx}] = *v
+	}
+
+	for slot, keys := range db.attKeysBySlot {
+		for _, k := range keys {
+			s.AttKeysBySlot[slot] = append(s.AttKeysBySlot[slot], VerifPkKey{k.Slot, k.CommIdx, k.ValIdx})
+		}
+	}
+
+	for k, v := range db.proDuties {
+		s.Pro[k] = v
+	}
+
+	for k, v := range db.aggDuties {
+		s.Agg[VerifAggKey{k.Slot, k.Root, uint64(k.CommitteeIndex)}] = v
+	}
+
+	for slot, keys := range db.aggKeysBySlot {
+		for _, k := range keys {
+			s.AggKeysBySlot[slot] = append(s.AggKeysBySlot[slot], VerifAggKey{k.Slot, k.Root, uint64(k.CommitteeIndex)})
+		}
+	}
+
+	for k, v := range db.contribDuties {
+		s.Contrib[VerifContribKey{k.Slot, k.SubcommIdx, k.Root}] = v
+	}
+
+	for slot, keys := range db.contribKeysBySlot {
+		for _, k := range keys {
+			s.ConKeysBySlot[slot] = append(s.ConKeysBySlot[slot], VerifContribKey{k.Slot, k.SubcommIdx, k.Root})
+		}
+	}
+
+	for _, q := range db.attQueries {
+		s.AttQueries = append(s.AttQueries, VerifQuery{VerifAttKey{q.Key.Slot, q.Key.CommIdx}, cancelled(q.Cancel)})
+	}
+
+	for _, q := range db.proQueries {
+		s.ProQueries = append(s.ProQueries, VerifQuery{q.Key, cancelled(q.Cancel)})
+	}
+
+	for _, q := range db.aggQueries {
+		s.AggQueries = append(s.AggQueries, VerifQuery{VerifAggKey{q.Key.Slot, q.Key.Root, uint64(q.Key.CommitteeIndex)}, cancelled(q.Cancel)})
+	}
+
+	for _, q := range db.contribQueries {
+		s.ContribQueries = append(s.ContribQueries, VerifQuery{VerifContribKey{q.Key.Slot, q.Key.SubcommIdx, q.Key.Root}, cancelled(q.Cancel)})
+	}
+
+	return s
+}
